@@ -540,3 +540,13 @@ VARIANTS += [
     V("C07", "only the outermost conditional expression is inferred", VIS, "                        for conditional_branch in get_conditional_branches(return_stmt.expr):", "                        for conditional_branch in [return_stmt.expr.if_expr, return_stmt.expr.else_expr]:", "C07.INFER-COLLECT"),
     V("C01", "conditional branches collected by recursing on the expression itself", MH, "            branches.extend(get_conditional_branches(branch))", "            branches.extend(get_conditional_branches(expr))", "C01.TERM"),
 ]
+VARIANTS += [
+    V("C03", "re-exports under an internal alias move the declaration", GEN, "                and is_internal(qualified_import.alias)\n                for qualified_import in reexport_module.qualified_imports", "                and False\n                for qualified_import in reexport_module.qualified_imports", "C03.MOVE"),
+]
+VARIANTS += [
+    V("C07", "wrong type argument of the coroutine wrapper taken", VIS, "                    node_ret_type = node_ret_type.args[2]\n", "                    node_ret_type = node_ret_type.args[0]\n", "C07.COROUTINE"),
+    V("C07", "benign: last type argument of the coroutine wrapper", VIS, "                    node_ret_type = node_ret_type.args[2]\n", "                    node_ret_type = node_ret_type.args[-1]\n", None),
+]
+VARIANTS += [
+    V("C08", "docstring package searched on the module search path again (explicitly)", DP, "load(package_path.name, search_paths=[package_path.parent], docstring_parser=parser)", "load(package_path.name, search_paths=[package_path.parent, *sys.path], docstring_parser=parser)", "C08.AMBIENT"),
+]
